@@ -486,13 +486,17 @@ GAP_APIS = ("accept", "recv", "send")     # the calls that park on a Condition u
 class Cell:
     """one fresh connection on which one blocking API (on side X) meets one ending"""
 
-    def __init__(self, api):
+    def __init__(self, api, role="std"):
+        """role 'std': the API's usual side (accept on the server, everything else on the client);
+        'swap': the other side (accept on the CLIENT as after request_port_forward, open_channel /
+        global_request / renegotiate / channel I/O on the SERVER side)."""
         import paramiko
         from paramiko.transport import Transport
         from _loop import LoopSocket
         quiet()
         self.paramiko = paramiko
         self.api = api
+        self.role = role
         self.hold = threading.Event()          # released in cleanup
         self.extra_threads = []
         a, b = LoopSocket(), LoopSocket()
@@ -527,7 +531,7 @@ class Cell:
             self.srv = Srv()
             self.x, self.y, self.sx, self.sy = self.ts, None, self.sb, self.sa
             return
-        self.tc = Transport(self.sa)
+        self.tc = Transport(self.sa, default_window_size=32768)
         self.ts = Transport(self.sb, default_window_size=32768)
         for t in (self.tc, self.ts):
             t.banner_timeout = 60
@@ -542,15 +546,17 @@ class Cell:
         else:
             self.tc.connect(username="u", password="p")
         ev.wait(30)
-        if api == "accept":
+        if (api == "accept") != (role == "swap"):
             self.x, self.y, self.sx, self.sy = self.ts, self.tc, self.sb, self.sa
         else:
             self.x, self.y, self.sx, self.sy = self.tc, self.ts, self.sa, self.sb
         if api in ("recv", "send", "chan_request", "exit_status"):
-            self.chan = self.tc.open_session(timeout=30)
-            self.schan = self.ts.accept(30)
-            if self.schan is None:
+            cchan = self.tc.open_session(timeout=30)
+            schan = self.ts.accept(30)
+            if schan is None:
                 raise RuntimeError("server did not accept the session channel")
+            # self.chan is the end of the channel that lives on side X
+            self.chan, self.schan = (cchan, schan) if self.x is self.tc else (schan, cchan)
 
     # -- making the call block -----------------------------------------------------------------
     def prepare_block(self):
@@ -560,11 +566,11 @@ class Cell:
             self.sy.paused = True           # the peer never sees (so never answers) anything
         if self.api == "send_user_message":
             # a key re-negotiation in flight: clear_to_send is cleared until the peer answers
-            th = threading.Thread(target=self._swallow, args=(self.tc.renegotiate_keys,), daemon=True)
+            th = threading.Thread(target=self._swallow, args=(self.x.renegotiate_keys,), daemon=True)
             th.start()
             self.extra_threads.append(th)
             end = time.time() + 10
-            while self.tc.clear_to_send.is_set() and time.time() < end:
+            while self.x.clear_to_send.is_set() and time.time() < end:
                 time.sleep(0.01)
 
     @staticmethod
@@ -581,17 +587,19 @@ class Cell:
         if api == "start_server":
             return self.ts.start_server(server=self.srv)
         if api == "open_channel":
-            return self.tc.open_session(timeout=120)
+            if self.x is self.tc:
+                return self.x.open_session(timeout=120)
+            return self.x.open_channel("x11", src_addr=("127.0.0.1", 6000), timeout=120)
         if api == "renegotiate_keys":
-            return self.tc.renegotiate_keys()
+            return self.x.renegotiate_keys()
         if api == "global_request":
-            return self.tc.global_request("c13@verif", wait=True)
+            return self.x.global_request("c13@verif", wait=True)
         if api == "send_user_message":
-            return self.tc.send_ignore(8)
+            return self.x.send_ignore(8)
         if api == "auth":
             return self.tc.auth_password("u", "p")
         if api == "accept":
-            return self.ts.accept(USER_TIMEOUT if tmo else None)
+            return self.x.accept(USER_TIMEOUT if tmo else None)
         if api == "recv":
             self.chan.settimeout(USER_TIMEOUT if tmo else None)
             return self.chan.recv(16)
@@ -607,7 +615,7 @@ class Cell:
     def arm_gap(self, thread, hook):
         """Pause `thread` just before it first takes the lock of the condition it will wait on."""
         if self.api == "accept":
-            owner, attr = self.ts, "lock"
+            owner, attr = self.x, "lock"
         elif self.api == "recv":
             owner, attr = self.chan.in_buffer, "_lock"
         elif self.api == "send":
@@ -686,6 +694,14 @@ class Cell:
                 t.join(2.0)
 
 
+def side_of(api, role):
+    if api == "start_client" or api == "auth":
+        return "client"
+    if api == "start_server":
+        return "server"
+    return "server" if (api == "accept") != (role == "swap") else "client"
+
+
 def applicable(api, ending, phase):
     if api in ("start_client", "start_server"):
         if ending == "peer-close":
@@ -695,10 +711,14 @@ def applicable(api, ending, phase):
     return True
 
 
-def run_cell(api, ending, phase, tmo):
+SWAP_APIS = ("accept", "open_channel", "global_request", "renegotiate_keys", "send_user_message",
+             "recv", "send", "exit_status")      # exist on both sides of a connection
+
+
+def run_cell(api, ending, phase, tmo, role="std"):
     """Returns (outcome, detail): outcome 'returned' | 'raised' | 'hang' | 'setup-failed'."""
     try:
-        cell = Cell(api)
+        cell = Cell(api, role)
     except Exception as e:   # noqa
         return "setup-failed", repr(e)
     try:
@@ -761,6 +781,49 @@ def run_cell(api, ending, phase, tmo):
         cell.cleanup()
 
 
+def observe_rekey_during_global_request():
+    """first request answered (global_response = that Message); the peer then ignores a second
+    wait=True request; the PEER re-keys; what does the pending global_request do?"""
+    import paramiko
+    from paramiko.common import MSG_GLOBAL_REQUEST
+    cell = Cell("global_request")
+    try:
+        srv = cell.ts.server_object
+        srv.check_global_request = lambda kind, msg: (4242,)
+        first = cell.tc.global_request("first@verif", wait=True)
+        first_ok = first is not None and first.get_int() == 4242
+        cell.ts._handler_table[MSG_GLOBAL_REQUEST] = lambda m: None     # the second one is never answered
+        box = {}
+
+        def second():
+            try:
+                box["v"] = cell.tc.global_request("second@verif", wait=True)
+            except BaseException as e:   # noqa
+                box["e"] = e
+
+        th = threading.Thread(target=second, daemon=True)
+        th.start()
+        time.sleep(0.3)
+        pending = th.is_alive()
+        st, _ = with_watchdog(cell.ts.renegotiate_keys, 20)
+        th.join(2.0)
+        if th.is_alive():
+            what = "still blocked 2s after the re-key (keeps waiting for its own answer)"
+        elif "e" in box:
+            what = "raised %s" % type(box["e"]).__name__
+        elif box.get("v") is None:
+            what = "returned None"
+        elif box["v"] is first:
+            what = ("returned the PREVIOUS request's response object (stale) although its own request was "
+                    "never answered")
+        else:
+            what = "returned %r" % (box["v"],)
+        return "first answered=%s, second pending before re-key=%s, re-key %s -> second %s" % (
+            first_ok, pending, st, what)
+    finally:
+        cell.cleanup()
+
+
 def all_cells():
     cells = []
     for api in APIS:
@@ -771,6 +834,8 @@ def all_cells():
             if api in GAP_APIS:
                 # forced interleaving: the ending completes between entry and taking the lock
                 cells.append((api, ending, "gap", False))
+    # both roles: the same API on the other side of the connection
+    cells = [c + ("std",) for c in cells] + [c + ("swap",) for c in cells if c[0] in SWAP_APIS]
     return cells
 
 
@@ -778,7 +843,7 @@ def part_matrix(ctx):
     rng = ctx.rng
     cells = all_cells()
     must = [c for c in cells if (c[0] == "accept" and c[1] in ("local-close", "peer-close") and not c[3])
-            or c[2] == "gap"]
+            or (c[2] == "gap" and (c[4] == "std" or c[0] == "accept"))]
     if not ctx.thorough:
         # representative subset: all formerly failing accept cells, and for every API x ending one
         # randomly chosen (phase, timeout) -- so every API meets every ending and every phase occurs
@@ -788,11 +853,12 @@ def part_matrix(ctx):
         seen = set()
         phase_count = {}
         for c in rest:
-            if (c[0], c[1]) not in seen and applicable(c[0], c[1], c[2]):
-                seen.add((c[0], c[1]))
+            if (c[0], c[1], c[4]) not in seen and applicable(c[0], c[1], c[2]):
+                seen.add((c[0], c[1], c[4]))
                 pick.append(c)
-        for c in rest:                       # ... and every API in every phase
-            if c not in pick and (c[0], c[2]) not in {(q[0], q[2]) for q in pick} and applicable(c[0], c[1], c[2]):
+        for c in rest:                       # ... and every API (in its usual role) in every phase
+            if c not in pick and c[4] == "std" and (c[0], c[2]) not in {(q[0], q[2]) for q in pick if q[4] == "std"} \
+                    and applicable(c[0], c[1], c[2]):
                 pick.append(c)
         cells = pick
     results = {}
@@ -853,15 +919,23 @@ def part_matrix(ctx):
                      case={"api": "accept", "ending": ending, "waiters": 3}, expected="all return None",
                      observed="%d still blocked after %ss" % (alive, WATCH))
 
+    try:
+        ctx.notes.append("re-key completing while global_request(wait=True) is pending (observation only, "
+                         "C18 engineer's note; not a C13 verdict): " + observe_rekey_during_global_request())
+    except Exception as e:   # noqa
+        ctx.notes.append("re-key/global_request observation could not be made: %r" % (e,))
+
     model_cases = []
     keys = []
     outcomes = {}
     for c in sorted(results):
-        api, ending, phase, tmo = c
+        api, ending, phase, tmo, role = c
         out, detail = results[c]
         if out == "n/a":
             continue
-        ctx.count(c, kind="matrix-%s-%s" % (ending, phase))
+        side = side_of(api, role)
+        tag = api if role == "std" else "%s@%s" % (api, side)
+        ctx.count(c, kind="matrix-%s-%s%s" % (ending, phase, "" if role == "std" else "-otherside"))
         outcomes.setdefault("%s/%s" % (out, detail), 0)
         outcomes["%s/%s" % (out, detail)] += 1
         if out == "setup-failed":
@@ -872,21 +946,24 @@ def part_matrix(ctx):
                             [1 if returned else 0, 1]))
         keys.append(c)
         if not returned:
-            ctx.fail("hang:%s:%s" % (api, ending),
-                     "%s is still blocked %ss after the connection ended by %s" % (api, WATCH, ending),
-                     case={"api": api, "ending": ending, "phase": phase, "timeout": tmo},
+            ctx.fail("hang:%s:%s" % (tag, ending),
+                     "%s on the %s transport is still blocked %ss after the connection ended by %s" % (
+                         api, side, WATCH, ending),
+                     case={"api": api, "ending": ending, "phase": phase, "timeout": tmo, "role": role,
+                           "side": side},
                      expected="returns or raises promptly", observed=detail)
         # a call that outlives the connection must not pretend success
         if returned and api in ("open_channel", "auth", "chan_request", "start_client", "start_server",
                                 "renegotiate_keys") and out == "returned":
-            ctx.fail("success-after-loss:%s:%s" % (api, ending),
+            ctx.fail("success-after-loss:%s:%s" % (tag, ending),
                      "%s returned normally although the connection ended before any answer" % api,
-                     case={"api": api, "ending": ending, "phase": phase}, expected="exception", observed=detail)
+                     case={"api": api, "ending": ending, "phase": phase, "timeout": tmo, "role": role,
+                           "side": side}, expected="exception", observed=detail)
     ctx.notes.append("matrix outcomes: %s" % sorted(outcomes.items()))
     bad = safe_mismatches(ctx, "run_cell", "(Z * Z * bool * Z)", model_cases)
     for i in bad[:5]:
         ctx.disagree("cell outcome differs from the wake-graph model's prediction",
-                     case=dict(zip(("api", "ending", "phase", "timeout"), keys[i])), model="returns",
+                     case=dict(zip(("api", "ending", "phase", "timeout", "role"), keys[i])), model="returns",
                      impl=results[keys[i]])
     for c in keys[:2]:
         ctx.sample({"matrix": {"cell": c, "impl": results[c], "model": "returns"}})
@@ -924,7 +1001,7 @@ def replay(ctx, rep):
     case = rep.get("case") or {}
     if "api" in case and "phase" in case:
         ctx.prove()
-        c = (case["api"], case["ending"], case["phase"], bool(case.get("timeout")))
+        c = (case["api"], case["ending"], case["phase"], bool(case.get("timeout")), case.get("role", "std"))
         r = run_cell(*c)
         if r[0] == "hang":
             r = run_cell(*c)
